@@ -55,14 +55,23 @@ func (r Ring) NewRNSScalar() ring.RNSScalar {
 
 // NewRNSScalarFromUInt64 creates a new Scalar in the RingQP initialized with value v.
 func (r Ring) NewRNSScalarFromUInt64(v uint64) ring.RNSScalar {
-	var scalarQ, scalarP []uint64
+	// Same layout as NewRNSScalar and as every consumer: the residues modulo P start after the whole chain of Q,
+	// whatever the current level of Q.
+	var qlen, plen int
 	if r.RingQ != nil {
-		scalarQ = r.RingQ.NewRNSScalarFromUInt64(v)
+		qlen = r.RingQ.ModuliChainLength()
 	}
 	if r.RingP != nil {
-		scalarP = r.RingP.NewRNSScalarFromUInt64(v)
+		plen = r.RingP.ModuliChainLength()
 	}
-	return append(scalarQ, scalarP...)
+	scalar := make(ring.RNSScalar, qlen+plen)
+	if r.RingQ != nil {
+		copy(scalar[:qlen], r.RingQ.NewRNSScalarFromUInt64(v))
+	}
+	if r.RingP != nil {
+		copy(scalar[qlen:], r.RingP.NewRNSScalarFromUInt64(v))
+	}
+	return scalar
 }
 
 // SubRNSScalar subtracts s2 to s1 and stores the result in sout.
